@@ -545,12 +545,13 @@ with exec (fuel : nat) (P : prog) (r : env) (d : nat) (s : stmt) (st : state) {s
           | Err e => Err e end
         end
     | SAssign _ t e =>
-        match eval f P r d e st with
+        (* the target's access chain is evaluated first, then the value, then the slot is written *)
+        match eval_lv st r t with
         | Err e => Err e
-        | Ok (v, st1) =>
-          match eval_lv st1 r t with
+        | Ok (lp, _) =>
+          match eval f P r d e st with
           | Err e => Err e
-          | Ok (lp, _) => match write st1 lp v with Ok st2 => Ok (ONormal, r, st2) | Err e => Err e end
+          | Ok (v, st1) => match write st1 lp v with Ok st2 => Ok (ONormal, r, st2) | Err e => Err e end
           end
         end
     | SSwap _ a b =>
